@@ -188,6 +188,54 @@ def default_arg_calls(ctx):
                                       expected=exp, actual=got, kind="history")
 
 
+def forked_threads(ctx):
+    """oracle only (the scheduler-core model has no fork_thread): calls created under a job that has already finished - the
+    continuation of a forked thread - still run in that job's context; the same call also runs under another non-empty context."""
+    from redun import task
+    from redun.context import get_context
+    from redun.scheduler import cond, fork_thread, join_thread
+    ctl_sched.quiet()
+
+    @task(namespace="c05t", version="1")
+    def h(a=get_context("a", 0), b=get_context("b", 0)):
+        return [a, b]
+
+    @task(namespace="c05t", version="1")
+    def g():
+        return h()
+
+    @task(namespace="c05t", version="1")
+    def gate(x):
+        return x
+
+    @task(namespace="c05t", version="1")
+    def make_thread(steps):
+        e = g()
+        for i in range(steps):       # g() is only reached after `steps` gate jobs, i.e. after make_thread itself has resolved
+            e = cond(gate(True), e, None)
+        return fork_thread(e)
+
+    @task(namespace="c05t", version="1")
+    def joiner(t, other):
+        return [join_thread(t), other]
+
+    rng = ctx.rng
+    for steps in (0, 1, 2):
+        for c1, c2 in (({"a": 1}, {"a": 2}), ({"a": 1, "b": 1}, {"b": 1}), ({"a": 3}, {"a": 3})):
+            for k in range(ctx.n(2, 8)):
+                c = ctl_sched.Ctl(rng=random.Random(rng.random()))
+                sched = ctl_sched.make_scheduler(c)
+                st, got = c.run(sched, joiner(make_thread.update_context(c1)(steps), g.update_context(c2)()))
+                exp = [[c1.get("a", 0), c1.get("b", 0)], [c2.get("a", 0), c2.get("b", 0)]]
+                ctx.case(key=("fork", steps, json.dumps(c1), json.dumps(c2), tuple(str(j.task.name) for j in c.completions)),
+                         sample={"steps": steps, "contexts": [c1, c2], "status": st, "result": repr(got)[:80]}, kind="forked-thread", status=st)
+                if st != "ok" or got != exp:
+                    ctx.violation("C05-forked-thread-call-ran-in-another-context",
+                                  "a call created by a forked thread after its forking job finished did not run in that job's context",
+                                  case={"steps": steps, "contexts": [c1, c2], "completion_order": [str(j.task.name) for j in c.completions]},
+                                  expected=exp, actual=(st, repr(got)[:200]), kind="schedule")
+
+
 CATCH_SIG = "C05-catch-recovery-cache-ignores-context"
 
 
@@ -235,6 +283,7 @@ def run(ctx):
     reproduced = False
     default_arg_calls(ctx)
     catch_under_contexts(ctx)
+    forked_threads(ctx)
     for defs, cfg in CORPUS:
         p = c06.mk_prog(defs, cfg)
         for ctl, hit in sc.enumerate_schedules_pairs(lambda d: one_run(ctx, p, decisions=d, items=items, tag="corpus-exhaustive"),
